@@ -168,12 +168,13 @@ class RealWorld:
     def close(self):
         shutil.rmtree(self.root, ignore_errors=True)
 
-    def path(self, loc):
+    def path(self, loc, role="other"):
         d = os.path.join(self.root, loc)
         os.makedirs(d, exist_ok=True)
-        # the same directory under alternating spellings (x/A, x/./A, x/A/../A, x//A): a location is a place on disk, not a string
+        # the same directory under several spellings (x/A, x/./A, x/A/../A, x//A): a location is a place on disk, not a string.
+        # Loads always use the plain spelling, saves rotate through the others - so a load follows saves made under other names
         self._spell = getattr(self, "_spell", 0) + 1
-        k = self._spell % 4
+        k = 0 if role == "load" else (1 + self._spell % 3 if role == "save" else self._spell % 4)
         d = [d, os.path.join(self.root, ".", loc), os.path.join(self.root, loc, "..", loc), self.root + os.sep + os.sep + loc][k]
         # locations whose name starts with "pre" are used WITHOUT a trailing slash (file-name prefix `x_`)
         return os.path.join(d, "x_") if loc.startswith("pre") else d + os.sep
@@ -213,7 +214,7 @@ class RealWorld:
 
     def do_save(self, act):
         obj, fmt, loc = self.objs[act["id"]], act["fmt"], act["loc"]
-        p = self.path(loc)
+        p = self.path(loc, "save")
         exc = None
         try:
             with contextlib.redirect_stdout(io.StringIO()):
@@ -229,7 +230,7 @@ class RealWorld:
 
     def do_load(self, act):
         obj, fmt, loc = self.objs[act["id"]], act["fmt"], act["loc"]
-        p = self.path(loc)
+        p = self.path(loc, "load")
         before = {n: getattr(obj, n) for n in FIELDS + ["metadata"]}
         had_md = obj.metadata is not None
         required = TEXT_FILES if fmt == "texts" else [JSON_FILE]
